@@ -9,6 +9,7 @@ import (
 	"sort"
 	"strings"
 	"sync"
+	"sync/atomic"
 	"testing"
 	"testing/synctest"
 	"time"
@@ -376,107 +377,118 @@ func (p *parkRes) Metadata() *resource.Metadata {
 	return p.Res.Metadata()
 }
 
-func (p *parkRes) DeepCopy() resource.Resource { return p.Res.DeepCopy() } //nolint:ireturn
+// unfiltered lists touch the items only through DeepCopy
+func (p *parkRes) DeepCopy() resource.Resource { //nolint:ireturn
+	if p.hook != nil {
+		p.hook()
+	}
+
+	return p.Res.DeepCopy()
+}
 
 // runListDuringUpdate: List must return the cache contents (matching the query) as they were before or after the
 // overlapping update - never a mixture, never a panic.
 func runListDuringUpdate(t *testing.T, c luCase) (problems []string) {
-	synctest.Test(t, func(t *testing.T) {
-		ctx, cancel := context.WithCancel(context.Background())
-		defer cancel()
+	// plain goroutines and channels (no synctest bubble): an implementation that reads the items while holding the cache
+	// lock is legitimate, and then the overlapping update simply waits for the reader - which a bubble cannot express
+	ctx, cancel := context.WithCancel(context.Background())
+	defer cancel()
 
-		cache := cruntime.VerifNewResourceCache([]options.CachedResource{{Namespace: "n1", Type: "T"}})
-		kind := resource.NewMetadata("n1", "T", "", resource.VersionUndefined)
+	cache := cruntime.VerifNewResourceCache([]options.CachedResource{{Namespace: "n1", Type: "T"}})
+	kind := resource.NewMetadata("n1", "T", "", resource.VersionUndefined)
 
-		mk := func(id, payload string) *Res {
-			r := newRes("n1", "T", id, payload)
-			r.Metadata().Labels().Set("k", "v")
-			v, _ := resource.ParseVersion("1") //nolint:errcheck
-			r.Metadata().SetVersion(v)
+	mk := func(id, payload string) *Res {
+		r := newRes("n1", "T", id, payload)
+		r.Metadata().Labels().Set("k", "v")
+		v, _ := resource.ParseVersion("1") //nolint:errcheck
+		r.Metadata().SetVersion(v)
 
-			return r
-		}
+		return r
+	}
 
-		var (
-			armed   bool
-			parked  = make(chan struct{})
-			release = make(chan struct{})
-		)
+	var (
+		armed   atomic.Bool
+		parked  = make(chan struct{})
+		release = make(chan struct{})
+	)
 
-		for i, id := range c.Init {
-			pr := &parkRes{Res: mk(id, "p0")}
+	for i, id := range c.Init {
+		pr := &parkRes{Res: mk(id, "p0")}
 
-			if i == c.ParkAt {
-				pr.hook = func() {
-					if armed {
-						armed = false
-
-						close(parked)
-						<-release
-					}
+		if i == c.ParkAt {
+			pr.hook = func() {
+				if armed.CompareAndSwap(true, false) {
+					close(parked)
+					<-release
 				}
 			}
-
-			cache.CacheAppend(pr)
 		}
 
-		cache.MarkBootstrapped("n1", "T")
+		cache.CacheAppend(pr)
+	}
 
-		if c.Spare {
-			x := mk("zz", "p0")
-			cache.CachePut(x)
-			cache.CacheRemove(x)
+	cache.MarkBootstrapped("n1", "T")
+
+	if c.Spare {
+		x := mk("zz", "p0")
+		cache.CachePut(x)
+		cache.CacheRemove(x)
+	}
+
+	render := func(l resource.List) string {
+		s := ""
+		for _, r := range l.Items {
+			s += r.Metadata().ID() + "=" + payloadOf(r) + " "
 		}
 
-		render := func(l resource.List) string {
-			s := ""
-			for _, r := range l.Items {
-				s += r.Metadata().ID() + "=" + payloadOf(r) + " "
-			}
+		return s
+	}
 
-			return s
-		}
+	var lopts []state.ListOption
 
-		var lopts []state.ListOption
+	switch c.Query {
+	case "label":
+		lopts = append(lopts, state.WithLabelQuery(resource.LabelEqual("k", "v")))
+	case "id":
+		lopts = append(lopts, state.WithIDQuery(resource.IDRegexpMatch(regexp.MustCompile("^[a-z0-9]$"))))
+	}
 
-		switch c.Query {
-		case "label":
-			lopts = append(lopts, state.WithLabelQuery(resource.LabelEqual("k", "v")))
-		case "id":
-			lopts = append(lopts, state.WithIDQuery(resource.IDRegexpMatch(regexp.MustCompile("^[a-z0-9]$"))))
-		}
+	before, err := cache.List(ctx, kind, lopts...)
+	if err != nil {
+		t.Fatal(err)
+	}
 
-		before, err := cache.List(ctx, kind, lopts...)
-		if err != nil {
-			t.Fatal(err)
-		}
+	var (
+		got      resource.List
+		gotErr   error
+		panicked any
+		done     = make(chan struct{})
+	)
 
-		var (
-			got      resource.List
-			gotErr   error
-			panicked any
-			done     = make(chan struct{})
-		)
+	armed.Store(true)
 
-		armed = true
+	go func() {
+		defer close(done)
+		defer func() { panicked = recover() }()
 
-		go func() {
-			defer close(done)
-			defer func() { panicked = recover() }()
+		got, gotErr = cache.List(ctx, kind, lopts...)
+	}()
 
-			got, gotErr = cache.List(ctx, kind, lopts...)
-		}()
+	select {
+	case <-parked:
+	case <-done:
+		// the reader never touched that item through Metadata(): nothing to overlap with
+		armed.Store(false)
 
-		synctest.Wait()
+		return nil
+	case <-time.After(5 * time.Second):
+		t.Fatal("list-during-update: the reader neither parked nor finished")
+	}
 
-		select {
-		case <-parked:
-		default:
-			// the reader never touched that item outside the cache lock (nothing to overlap with)
-			<-done
+	updated := make(chan struct{})
 
-			return
-		}
+	go func() {
+		defer close(updated)
 
 		op, id, _ := strings.Cut(c.Update, ":")
 
@@ -488,24 +500,32 @@ func runListDuringUpdate(t *testing.T, c luCase) (problems []string) {
 		case "remove":
 			cache.CacheRemove(mk(id, "p0"))
 		}
+	}()
 
-		close(release)
-		<-done
+	// the update lands while the reader is parked - unless the reader holds the cache lock, in which case it lands right
+	// after the reader; both are fine
+	select {
+	case <-updated:
+	case <-time.After(50 * time.Millisecond):
+	}
 
-		after, err := cache.List(ctx, kind, lopts...)
-		if err != nil {
-			t.Fatal(err)
-		}
+	close(release)
+	<-done
+	<-updated
 
-		switch {
-		case panicked != nil:
-			problems = append(problems, fmt.Sprintf("list-during-update: a cached List overlapping %s panicked: %v", c.Update, panicked))
-		case gotErr != nil:
-			problems = append(problems, fmt.Sprintf("list-during-update: a cached List overlapping %s failed: %v", c.Update, gotErr))
-		case render(got) != render(before) && render(got) != render(after):
-			problems = append(problems, fmt.Sprintf("list-during-update: a cached List overlapping %s returned {%s}; the cache held {%s} before and {%s} after the update", c.Update, render(got), render(before), render(after)))
-		}
-	})
+	after, err := cache.List(ctx, kind, lopts...)
+	if err != nil {
+		t.Fatal(err)
+	}
+
+	switch {
+	case panicked != nil:
+		problems = append(problems, fmt.Sprintf("list-during-update: a cached List overlapping %s panicked: %v", c.Update, panicked))
+	case gotErr != nil:
+		problems = append(problems, fmt.Sprintf("list-during-update: a cached List overlapping %s failed: %v", c.Update, gotErr))
+	case render(got) != render(before) && render(got) != render(after):
+		problems = append(problems, fmt.Sprintf("list-during-update: a cached List overlapping %s returned {%s}; the cache held {%s} before and {%s} after the update", c.Update, render(got), render(before), render(after)))
+	}
 
 	return problems
 }
